@@ -26,16 +26,18 @@ class Spec2D:
         self.bcl = {t: dict(d) for t, d in bcl.items()}
         self.prim = [np.array(p, float) for p in prim]
 
-    def build(self):
+    def build(self, model=None):
         m = fmesh2d.mesh2d(self.nx, self.ny, self.lx, self.ly)
-        model = euler.euler2d(gamma=self.gam)
+        model = model or euler.euler2d(gamma=self.gam)
+        if (self.nx + 2 * self.ny) % 3 == 0:        # deterministic decoys (no rng here): other models built after the one under test
+            euler.euler2d(gamma=1.23); euler.euler1d(gamma=1.77)
         num = xnum.extrapol2d1() if self.k is None else xnum.extrapol2dk(self.k)
         disc = md.fvm2d(model, m, num, bclist=self.bcl, numflux=self.flux)
         f = ffield.fdata(model, m, model.prim2cons(self.prim))
         return m, model, disc, f
 
-    def rhs(self):
-        m, model, disc, f = self.build()
+    def rhs(self, model=None):
+        m, model, disc, f = self.build(model)
         return [np.array(r, copy=True) for r in disc.rhs(f)]
 
     def grid(self, a):
@@ -158,12 +160,16 @@ def _compare(ctx, cls, key, s, r1, r2):
 @group(quick=700, thorough=25000)
 def symmetries(ctx, rng, idx):
     s = random_spec(rng)
-    ctx.describe(**s.desc())
-    r = s.rhs()
+    shared = euler.euler2d(gamma=s.gam) if rng.random() < 0.5 else None      # ONE model object for the problem and all its twins
+    ctx.describe(model_object_shared_between_twins=shared is not None, **s.desc())
+    r = s.rhs(shared)
     bk = "bc-" + "-".join(sorted(set(d["type"] for d in s.bcl.values())))
-    _compare(ctx, "transpose", "transpose/residual-not-transposed/%s/%s" % (s.flux, bk), s, r, untranspose(s, transpose(s).rhs()))
-    _compare(ctx, "reflect-x", "reflect-x/residual-not-reflected/%s/%s" % (s.flux, bk), s, r, unreflect(s, reflect(s, 0).rhs(), 0))
-    _compare(ctx, "reflect-y", "reflect-y/residual-not-reflected/%s/%s" % (s.flux, bk), s, r, unreflect(s, reflect(s, 1).rhs(), 1))
+    _compare(ctx, "transpose", "transpose/residual-not-transposed/%s/%s" % (s.flux, bk), s, r, untranspose(s, transpose(s).rhs(shared)))
+    _compare(ctx, "reflect-x", "reflect-x/residual-not-reflected/%s/%s" % (s.flux, bk), s, r, unreflect(s, reflect(s, 0).rhs(shared), 0))
+    _compare(ctx, "reflect-y", "reflect-y/residual-not-reflected/%s/%s" % (s.flux, bk), s, r, unreflect(s, reflect(s, 1).rhs(shared), 1))
+    if shared is not None:       # and back on the first grid: the answer must not depend on what the model was used for in between
+        r2 = s.rhs(shared)
+        ctx.true("transpose", all(np.array_equal(a, b, equal_nan=True) for a, b in zip(r, r2)), "shared-model/residual-changes-after-use-on-other-grids/%s" % s.flux, None, cls="transpose")
     d = ctx.info.setdefault("bc_types", {})
     for b in s.bcl.values():
         d[b["type"]] = d.get(b["type"], 0) + 1
